@@ -120,11 +120,24 @@ class Real:
     # ---- execution
     def apply(self, op: dict) -> tuple[str, str, dict]:
         """Returns (outcome, exception kind, the operation as the model takes it)."""
+        self.where = ""
         try:
             mop = self._apply(op)
             return "ok", "", mop or op
         except RAISES as e:
-            mop = {"op": "sortCycle"} if op["op"] == "sort" else op
+            # innermost library function on the traceback (names the sub-step of a composite call that raised)
+            tb, names = e.__traceback__, []
+            while tb is not None:
+                if "onnx_ir" in tb.tb_frame.f_code.co_filename:
+                    names.append(tb.tb_frame.f_code.co_name)
+                tb = tb.tb_next
+            for nm in names[1:] if len(names) > 1 else names:
+                if nm in ("replace_all_uses_with", "insert_after", "remove", "name", "rename_values"):
+                    self.where = nm
+                    break
+            else:
+                self.where = names[-1] if names else ""
+            mop = {"op": "sortCycle"} if op["op"] in ("sort", "newNode") and (op["op"] == "sort" or op.get("badAttr")) else op
             return "raised", type(e).__name__, mop
 
     def _io(self, op):
@@ -149,14 +162,31 @@ class Real:
             ins = [self.V(i) for i in op["inputs"]]
             outs = None if op["outputs"] is None else self.Vs(op["outputs"])
             attrs = [ir.AttrGraph(f"body{j}", self.graphs[gi]) for j, gi in enumerate(op.get("attrGraphs", []))]
+            if op.get("attrGraphsList"):
+                attrs.append(ir.AttrGraphs("branches", [self.graphs[gi] for gi in op["attrGraphsList"]]))
+            if op.get("badAttr"):
+                attrs = attrs + [object()]  # not an Attr: must be rejected before the outputs are claimed
             graph = None if op.get("graph") is None else self.graphs[op["graph"]]
             n = ir.Node(
                 "", op["opType"], ins, attrs, num_outputs=op["numOutputs"], outputs=outs, name=op["name"], graph=graph
             )
             self.attr_graphs.update(op.get("attrGraphs", []))
+            self.attr_graphs.update(op.get("attrGraphsList", []))
             self.reg_node(n)
             for o in n.outputs:
                 self.reg_val(o)
+        elif k == "attrEdit":
+            n = self.nodes[op["n"]]
+            if op.get("graphs") is not None:
+                n.attributes[op["key"]] = ir.AttrGraphs(op["key"], [self.graphs[gi] for gi in op["graphs"]])
+                self.attr_graphs.update(op["graphs"])
+            elif op.get("graph") is not None:
+                n.attributes[op["key"]] = ir.AttrGraph(op["key"], self.graphs[op["graph"]])
+                self.attr_graphs.add(op["graph"])
+            else:
+                n.attributes.pop(op["key"], None)
+        elif k == "newValueProd":
+            self.reg_val(ir.Value(self.nodes[op["n"]], index=op["i"], name=op["name"]))
         elif k == "newGraph":
             g = ir.Graph(
                 self.Vs(op["inputs"]), self.Vs(op["outputs"]), nodes=self.Ns(op["nodes"]), initializers=self.Vs(op["inits"])
@@ -507,6 +537,7 @@ def deep_snapshot(real: Real) -> Any:
                 repr(v.shape),
                 v.doc_string,
                 tuple(sorted(v.metadata_props.items())),
+                repr(sorted(dict(v.meta).items(), key=repr)),
             )
         )
     for n in real.nodes:
@@ -521,7 +552,14 @@ def deep_snapshot(real: Real) -> Any:
                 tuple(V(x) for x in n.inputs),
                 tuple(V(x) for x in n.outputs),
                 G(n.graph),
-                tuple(sorted((k, G(a.value) if a.type.name == "GRAPH" else repr(a.value)) for k, a in n.attributes.items())),
+                tuple(
+                    sorted(
+                        (k, G(a.value) if a.type.name == "GRAPH" else tuple(G(x) for x in a.value) if a.type.name == "GRAPHS" else repr(a.value))
+                        for k, a in n.attributes.items()
+                    )
+                ),
+                repr(n.device_configurations),
+                repr(sorted(dict(n.meta).items(), key=repr)),
                 n.doc_string,
                 tuple(sorted(n.metadata_props.items())),
                 tuple(N(x) for x in n.predecessors()),
@@ -543,6 +581,7 @@ def deep_snapshot(real: Real) -> Any:
                 g.doc_string,
                 tuple(sorted(g.opset_imports.items())),
                 tuple(sorted(g.metadata_props.items())),
+                repr(sorted(dict(g.meta).items(), key=repr)),
                 (na._value_counter, na._node_counter, tuple(sorted(na._value_names)), tuple(sorted(na._node_names))),
                 # per-list reference counters: latent state that decides when a later removal clears the
                 # is_graph_input / is_graph_output flag (read like the name authority, for the same reason)
@@ -726,6 +765,8 @@ class Gen:
             (self.membership, 6 if ng and nn else 0),
             (self.remove, 2 if ng and nn else 0),
             (self.sort, 1 if ng and nn else 0),
+            (self.attr_edit, 1 if ng and nn else 0),
+            (self.new_value_prod, 0.15 if nn and nv < MAX_VALUES else 0),
             (self.rauw_many, 2),
             (self.rename_values, 3),
             (self.replace_nodes_and_values, 2 if ng and nn else 0),
@@ -739,12 +780,27 @@ class Gen:
     def new_value(self):
         return {"op": "newValue", "name": self.rng.choice(NAME_POOL + [None, None, None])}
 
+    def attr_edit(self):
+        rng, real = self.rng, self.real
+        n = self.node()
+        gs = list(range(len(real.graphs)))
+        r = rng.random()
+        op = {"op": "attrEdit", "n": n, "key": rng.choice(["body0", "branches", "extra"])}
+        if r < 0.4:
+            op["graph"] = rng.choice(gs)  # may be a graph already held by another attribute (shared)
+        elif r < 0.75:
+            op["graphs"] = [rng.choice(gs) for _ in range(rng.choice([1, 2]))]
+        return op
+
+    def new_value_prod(self):
+        n = self.node()
+        return {"op": "newValueProd", "n": n, "i": self.rng.choice([0, 1, 5]), "name": None}
+
     def set_const(self):
         v = self.any_val()
         op = {"op": "setConst", "v": v}
-        # a tensor that refuses renaming is only attached to a value that already has a non-empty name, so that
-        # the implicit naming paths (name authority, `initializers[key] = unnamed`) never meet it (see ASSUMPTIONS)
-        if self.real.vals[v].name and self.rng.random() < 0.35:
+        # a tensor that refuses renaming (read-only name); on an unnamed value it meets the implicit naming paths
+        if self.rng.random() < 0.35:
             op["locked"] = True
         return op
 
@@ -778,8 +834,14 @@ class Gen:
             "graph": rng.randrange(len(real.graphs)) if real.graphs and rng.random() < 0.4 else None,
         }
         free_g = [i for i in range(len(real.graphs)) if i not in real.attr_graphs and i != op["graph"]]
-        if free_g and rng.random() < 0.25:
+        any_g = [i for i in range(len(real.graphs)) if i != op["graph"]]
+        r = rng.random()
+        if free_g and r < 0.2:
             op["attrGraphs"] = [rng.choice(free_g)]
+        elif any_g and r < 0.28:
+            op["attrGraphsList"] = [rng.choice(any_g) for _ in range(rng.choice([1, 2]))]  # GRAPHS; may share a graph
+        elif r < 0.33:
+            op["badAttr"] = True
         return op
 
     def new_graph(self):
@@ -1017,11 +1079,6 @@ class Gen:
             x = self.node() if self.invalid() else self.addable_node(g)
             new_nodes.append(self.node() if x is None else x)
         old_vals = [real.vid[id(o)] for n in old_nodes for o in real.nodes[n].outputs][:2] or [self.any_val()]
-        old_vals = [v for v in old_vals if not real.is_locked(v)] or [
-            self.val(lambda x: x.const_value is None) or 0
-        ]
-        if any(real.is_locked(v) for v in old_vals):
-            return self.new_value()
         new_vals = [real.vid[id(o)] for n in new_nodes for o in real.nodes[n].outputs][: len(old_vals)]
         while len(new_vals) < len(old_vals) and rng.random() < 0.8:
             new_vals.append(self.any_val())
@@ -1048,7 +1105,8 @@ def nesting_acyclic(real: Real, g) -> bool:
         path.add(id(graph))
         for n in graph:
             for a in n.attributes.values():
-                if a.type.name == "GRAPH" and not go(a.value):
+                subs = [a.value] if a.type.name == "GRAPH" else list(a.value) if a.type.name == "GRAPHS" else []
+                if any(not go(sg) for sg in subs):
                     return False
         path.discard(id(graph))
         return True
@@ -1060,23 +1118,71 @@ def gen_op(rng: random.Random, real: Real) -> dict:
     return Gen(rng, real).op()
 
 
+def _unnamed_locked(real: Real, v) -> bool:
+    cv = v.const_value
+    return v.name is None and cv is not None and id(cv) in real.locked
+
+
+def touches_locked_unnamed(op: dict, real: Real) -> bool:
+    """The call is about to give a generated / key name to a value whose const tensor refuses renaming."""
+    k = op["op"]
+    V, Nn = real.vals, real.nodes
+
+    def node_outs(ids):
+        return any(_unnamed_locked(real, o) for i in ids for o in Nn[i].outputs)
+
+    if k == "append":
+        return node_outs([op["n"]])
+    if k in ("extend", "insertAfter", "insertBefore"):
+        return node_outs(op["ns"])
+    if k == "replaceNodesAndValues":
+        return node_outs(op["newNodes"]) or any(real.is_locked(v) for v in op["oldVals"] + op["newVals"])
+    if k == "newGraph":
+        return node_outs(op["nodes"]) or any(_unnamed_locked(real, V[i]) for i in op["inputs"])
+    if k == "newNode":
+        return op.get("graph") is not None and any(_unnamed_locked(real, V[i]) for i in (op["outputs"] or []))
+    if k == "init":
+        vs = ([op["v"]] if "v" in op else []) + [p[1] for p in op.get("kvs", [])]
+        return any((not V[i].name) and real.is_locked(i) for i in vs)
+    if k == "sort":
+        import onnx_ir.traversal as tr
+
+        try:
+            return any(_unnamed_locked(real, o) for n in tr.RecursiveGraphIterator(real.graphs[op["g"]]) for o in n.outputs)
+        except RecursionError:
+            return False
+    return False
+
+
 def shape_of(op: dict, real: Real) -> str:
     """Argument shape of a call, evaluated on the state *before* the call (used in failure signatures)."""
+    base = _shape_of(op, real)
+    if touches_locked_unnamed(op, real):
+        base += "+locked-unnamed"
+    return base
+
+
+def _shape_of(op: dict, real: Real) -> str:
     k = op["op"]
     tags = []
     V = real.vals
-    if k == "newNode" and op["outputs"] is not None:
-        outs = [V[i] for i in op["outputs"]]
-        if len(set(op["outputs"])) != len(op["outputs"]):
-            tags.append("repeated-output")
-        if any(v.is_initializer() for v in outs):
-            tags.append("initializer-as-output")
-        if any(v.is_graph_input() for v in outs):
-            tags.append("graph-input-as-output")
-        if any(v.is_graph_output() for v in outs):
-            tags.append("graph-output-as-output")
-        if any(v.producer() is not None for v in outs):
-            tags.append("produced-output")
+    if k == "newNode":
+        if op.get("badAttr"):
+            tags.append("bad-attribute")
+        if op["outputs"] is not None:
+            outs = [V[i] for i in op["outputs"]]
+            if len(set(op["outputs"])) != len(op["outputs"]):
+                tags.append("repeated-output")
+            if any(v.is_initializer() for v in outs):
+                tags.append("initializer-as-output")
+            if any(v.is_graph_input() for v in outs):
+                tags.append("graph-input-as-output")
+            if any(v.is_graph_output() for v in outs):
+                tags.append("graph-output-as-output")
+            if any(v.producer() is not None for v in outs):
+                tags.append("produced-output")
+    elif k == "newValueProd":
+        return "producer-arg"
     elif k == "newGraph":
         if any(V[i].producer() is not None or V[i]._graph is not None for i in op["inputs"]):
             tags.append("bad-input")
@@ -1100,6 +1206,34 @@ def shape_of(op: dict, real: Real) -> str:
     elif k == "setName":
         return "locked-tensor" if real.is_locked(op["v"]) else "plain"
     return "+".join(tags) or "plain"
+
+
+def allowed_kinds(op: dict, real: Real, shape: str) -> set[str]:
+    """The exception types a rejection of this call may legitimately have (anything else is an internal
+    crash passing as a rejection)."""
+    k = op["op"]
+    ok = {"ValueError"}
+    if k == "io":
+        m = op["m"]
+        if m in ("pop", "delItem"):
+            ok = {"IndexError"}
+        elif m == "setItem":
+            ok = {"IndexError", "ValueError"}
+        elif m in ("iadd", "imul"):
+            ok = {"RuntimeError"}
+    elif k == "init":
+        m = op["m"]
+        if m in ("delItem", "pop", "popitem"):
+            ok = {"KeyError"}
+        elif m == "add":
+            ok = {"TypeError", "ValueError"}
+    elif k == "newNode" and op.get("badAttr"):
+        ok = {"TypeError", "ValueError"}
+    elif k == "newGraph":
+        ok = {"ValueError", "TypeError"}  # TypeError: an initializer without a name (key None)
+    if "locked" in shape or (k in ("setName", "renameValues", "replaceNodesAndValues") and "locked" in shape):
+        ok = ok | {"AttributeError"}
+    return ok
 
 
 def fail_pos(op: dict, real: Real) -> str:
@@ -1168,7 +1302,13 @@ VIA_FUNCTION = ("io", "append", "extend", "insertAfter", "insertBefore", "remove
 
 
 def run_one(
-    rng: random.Random, length: int, part: Part, fixed_ops: list | None = None, p_invalid: float = 0.3, keep: list | None = None
+    rng: random.Random,
+    length: int,
+    part: Part,
+    fixed_ops: list | None = None,
+    p_invalid: float = 0.3,
+    keep: list | None = None,
+    prelude: int = 0,
 ) -> dict:
     """Generate and execute one history on the real objects; evaluate both oracles after every call.
     Returns {"ops", "outcomes", "deltas"} truncated at the first oracle failure (the state is then outside
@@ -1189,14 +1329,27 @@ def run_one(
         o, kind, mop = real.apply(op)
         if fixed_ops is None:
             gen.after(op, o)
-        part.count(f"op={label}:{o}")
-        if o == "raised" and pos:
-            part.count(f"raisedAt={label}:k={pos}")
+        if step < prelude:
+            part.count(f"prelude={label}:{o}")
+        else:
+            part.count(f"op={label}:{o}")
+            if op.get("via"):
+                part.count(f"via={op['via']}:{op['op']}")
+            if op.get("single"):
+                part.count(f"single-object-spelling:{op['op']}")
+            if o == "raised" and pos:
+                part.count(f"raisedAt={label}:k={pos}")
+        # signature of a failure of this call: operation, argument shape, and for composite calls where it stopped
+        sig = f"{op['op']}:{shape}"
+        if op["op"] == "rauwMany":
+            sig += f":k={pos}"
+        elif op["op"] == "replaceNodesAndValues" and o == "raised":
+            sig += f":at-{real.where or 'start'}"
         failed = False
         viol = wf_oracle(real)
         if viol:
             part.fail(
-                f"C01|{op['op']}:{shape}",
+                f"C01|{sig}",
                 f"invariant broken after {label} ({o}{' ' + kind if kind else ''}): {viol[0]}",
                 {"ops": ops + [op], "violations": viol[:5]},
             )
@@ -1205,11 +1358,20 @@ def run_one(
             after = deep_snapshot(real)
             if after != before:
                 part.fail(
-                    f"C06|{op['op']}:{shape}",
+                    f"C06|{sig}",
                     f"{label} raised {kind} but changed state: {first_diff(before, after)}",
                     {"ops": ops + [op]},
                 )
-                failed = True
+                # the model keeps the partial effects of these composite calls exactly like the code: go on comparing
+                failed = failed or op["op"] not in NOT_ATOMIC
+            if kind not in allowed_kinds(op, real, shape):
+                for prop in ("C01", "C06"):
+                    part.fail(
+                        f"{prop}|kind:{op['op']}:{kind}",
+                        f"{label} was rejected with {kind}, which is not a documented rejection of this call "
+                        f"(allowed: {sorted(allowed_kinds(op, real, shape))}) - an internal error passing as a rejection",
+                        {"ops": ops + [op]},
+                    )
         if failed:
             break
         cur = real.snapshot()
@@ -1267,6 +1429,13 @@ def compare_with_model(ctx, hists: list[dict]) -> None:
             continue
         steps = out["steps"]
         for i, (op, o, d, st) in enumerate(zip(ops, h["outcomes"], h["deltas"], steps)):
+            if st.get("k") == "late-check":
+                ctx.disagree(
+                    f"model: a check failed after the validation of step {i} ({op['op']}) had passed "
+                    "(C01_mutation_faithful says this cannot happen on a well-formed world)",
+                    {"ops": ops[: i + 1]},
+                )
+                break
             if st["o"] != o:
                 ctx.disagree(f"outcome differs at step {i} ({op['op']})", {"ops": ops[: i + 1]}, st["o"], o)
                 break
@@ -1395,6 +1564,14 @@ def small_alphabet(reduced: bool = False) -> list[dict]:
         {"op": "remove", "g": 1, "ns": [0], "safe": False},
         {"op": "sort", "g": 0},
         {"op": "setConst", "v": 1, "locked": True},
+        {"op": "setConst", "v": 5, "locked": True},  # v5 = unnamed output of n2 (g1) ... named by the prelude; see next
+        {"op": "setConst", "v": 2, "locked": True},  # v2: unnamed free value with a tensor that refuses renaming
+        {"op": "newNode", "opType": "Id", "name": None, "inputs": [], "numOutputs": None, "outputs": [2], "graph": 1},
+        {"op": "newNode", "opType": "Id", "name": None, "inputs": [], "numOutputs": None, "outputs": [2], "graph": None, "badAttr": True},
+        {"op": "newGraph", "inputs": [2], "outputs": [], "nodes": [], "inits": []},
+        {"op": "attrEdit", "n": 0, "key": "body0", "graph": 1},
+        {"op": "attrEdit", "n": 1, "key": "branches", "graphs": [1, 1]},
+        {"op": "newValueProd", "n": 0, "i": 0, "name": None},
         {"op": "append", "g": 1, "n": 1, "via": "function"},
         {"op": "io", "g": 1, "kind": "out", "m": "append", "v": 5, "via": "function"},
         {"op": "newNode", "opType": "Id", "name": None, "inputs": [3], "numOutputs": None, "outputs": [2], "graph": None},
@@ -1417,7 +1594,7 @@ def _exh_worker(args):
     part = Part()
     hist = []
     for tail in tails:
-        hist.append(run_one(random.Random(0), 0, part, fixed_ops=PRELUDE + tail))
+        hist.append(run_one(random.Random(0), 0, part, fixed_ops=PRELUDE + tail, prelude=len(PRELUDE)))
     compare_with_model(part, hist)
     return part
 
@@ -1488,6 +1665,67 @@ def run_after_reject(ctx, prop: str, depth: int = 3, procs: int = 16) -> str:
     return (
         f"all {len(tails)} histories: prelude, one of 6 rejected calls on g.inputs / g.outputs, then <= {depth} calls "
         "from 6 mutators of the same list applied to the same value"
+    )
+
+
+def position_scenarios() -> list[list[dict]]:
+    """Every multi-element call with the element it must reject at each position k = 0, 1, 2 of a 3-element
+    argument (the elements before it are acceptable: a call that is not validate-first applies them)."""
+    nd = lambda: {"op": "newNode", "opType": "Id", "name": None, "inputs": [], "numOutputs": None, "outputs": None, "graph": None}
+    setup = [
+        {"op": "newValue", "name": "p"},  # v6
+        {"op": "newValue", "name": "q"},  # v7
+        {"op": "newValue", "name": "r"},  # v8
+        {"op": "io", "g": 1, "kind": "inp", "m": "append", "v": 2},  # v2 now belongs to g1: foreign to g0
+        nd(),  # n3 -> v9
+        nd(),  # n4 -> v10
+        nd(),  # n5 -> v11
+    ]
+
+    def at(goods, bad, k):
+        xs = list(goods)
+        xs[k] = bad
+        return xs
+
+    out = []
+    for k in range(3):
+        calls = []
+        for kind in ("inp", "out"):
+            calls.append({"op": "io", "g": 0, "kind": kind, "m": "extend", "vs": at([6, 7, 8], 2, k)})
+            calls.append({"op": "io", "g": 0, "kind": kind, "m": "setSlice", "start": None, "stop": None, "step": None, "vs": at([6, 7, 8], 2, k)})
+            calls.append({"op": "io", "g": 0, "kind": kind, "m": "setSlice", "start": 0, "stop": 0, "step": None, "vs": at([6, 7, 8], 2, k)})
+        ns = at([3, 4, 5], 2, k)
+        calls.append({"op": "extend", "g": 0, "ns": ns})
+        calls.append({"op": "insertAfter", "g": 0, "a": 0, "ns": ns})
+        calls.append({"op": "insertBefore", "g": 0, "a": 1, "ns": ns})
+        calls.append({"op": "insertAfter", "g": 0, "a": 0, "ns": ns, "via": "node"})
+        calls.append({"op": "extend", "g": 0, "ns": ns, "via": "function"})
+        calls.append({"op": "remove", "g": 0, "ns": at([0, 1, 0], 2, k), "safe": False})
+        calls.append({"op": "init", "g": 0, "m": "update", "kvs": at([["p", 6], ["q", 7], ["r", 8]], ["zz", 2], k)})
+        calls.append({"op": "init", "g": 0, "m": "update", "ior": True, "kvs": at([["p", 6], ["q", 7], ["r", 8]], ["x", 6 if k else 7], k)})
+        calls.append({"op": "newGraph", "inputs": at([6, 7, 8], 0, k), "outputs": [], "nodes": [], "inits": []})
+        calls.append({"op": "newGraph", "inputs": [6], "outputs": at([6, 7, 8], 0, k), "nodes": [], "inits": []})
+        calls.append({"op": "newGraph", "inputs": [6], "outputs": [7], "nodes": [], "inits": at([6, 7, 8], 1, k)})
+        calls.append({"op": "newGraph", "inputs": [6], "outputs": [7], "nodes": at([3, 4, 5], 0, k), "inits": [8]})
+        calls.append({"op": "rauwMany", "vs": at([0, 3, 5], 4, k), "rs": [6, 7, 8], "rgo": False})
+        calls.append({"op": "rauwMany", "vs": at([0, 3, 5], 4, k), "rs": at([6, 7, 8], 2, k), "rgo": True})
+        for c in calls:
+            out.append(setup + [c])
+        adds = [{"op": "init", "g": 0, "m": "add", "v": v} for v in (6, 7, 8)]
+        out.append(setup + adds + [{"op": "renameValues", "vs": [6, 7, 8], "names": at(["a1", "a2", "a3"], "", k)}])
+        out.append(setup + adds + [{"op": "renameValues", "vs": [6, 7, 8], "names": at(["a1", "a2", "a3"], "b", k)}])
+    return out
+
+
+def run_position_scenarios(ctx, prop: str, procs: int = 16) -> str:
+    tails = position_scenarios()
+    jobs = [tails[i : i + 6] for i in range(0, len(tails), 6)]
+    for part in pmap(_exh_worker, jobs, procs):
+        split_failures(part, prop)
+        ctx.merge(part)
+    return (
+        f"{len(tails)} histories: every multi-element call (extend / slice assignment / insert_* / remove / update / |= / "
+        "Graph(...) inputs, outputs, initializers, nodes / rauw / rename_values) with its rejected element at position 0, 1, 2"
     )
 
 
